@@ -316,8 +316,10 @@ def compare_cond_plain(impl, model, rtol, where="", marg=None):
     for i, (ri, rm) in enumerate(zip(b_i, b_m)):
         for j, (a, b) in enumerate(zip(ri, rm)):
             fb = float(b)
+            # the offset is  m - G m'  : an error of relative size rtol in the gain row shows up as rtol * sum_j |G_ij| |m'_j|
+            cancel = sum(abs(float(A_m[i][jj])) * (msc[jj] if jj < len(msc) else 0.0) for jj in range(len(A_m[i]))) if marg is not None else 0.0
             tol = rtol * (abs(fb) + max(sdq[i], sdm[i] if i < len(sdm) else 0.0, 1e-7 * smax)) + 1e-9 * rtol / 1e-7 * (msc[i] if i < len(msc) else 0.0) \
-                + 1e-13 * mall + 1e-300
+                + rtol * cancel + 1e-13 * mall + 1e-300
             if not abs(a - fb) <= tol:
                 return f"{where} cond.b[{i}][{j}]: implementation {a!r} vs model {fb!r}", None
     for i in range(n):
